@@ -105,6 +105,7 @@ func (st *State) comment(s string) {
 
 // check emits an obligation and then assumes its goal (assert-then-assume).
 func (st *State) check(o *Obligation, goal Term) {
+	goal = st.x.applyKnown(o, goal)
 	o.Path = strings.Join(st.path, ">")
 	o.Goal = goal.S
 	if goal.S != "true" {
